@@ -349,7 +349,7 @@ func init() {
 	register(&Property{
 		ID:    "C01",
 		Level: "other",
-		Explanation: "Decides the structural necessary conditions of 'synced exit-tree root equals the bridge contract's root': C01-leaf — the byte layout of bridgesync.Bridge.Hash, extracted symbolically from its SSA (fixed-width big-endian encodings, raw addresses, 32-byte big-endian amount, keccak of the metadata, in order), equals the contract's getLeafValue = keccak256(abi.encodePacked(uint8,uint32,address,uint32,address,uint256,bytes32)); C01-step — AddLeaf and initCache follow the contract's orientation (bit set ⇒ right child; lastLeftCache[h] / zeroHashes[h] with the same h; cache written on the clear edge only; all 32 levels), newTreeNode = keccak(left‖right), zero hashes z[i] = keccak(z[i-1]‖z[i-1]); C01-feed — ProcessBlock appends, for every event carrying a Bridge, the leaf {Index: DepositCount, Hash: Bridge.Hash()} of that same event at (block.Num, BlockPos) before storing its row, stores no row without a successfully appended leaf, and the downloader fills the 8 leaf-relevant Bridge fields from the same-named fields of the parsed log; C01-restart — the frontier starts at the not-initialised sentinel, is written only by AddLeaf/initCache under the rollback registration, a mismatch always rebuilds from the database (shared with C07 TX-mem). Not decided: that the frontier algorithm as a whole computes the same function as the contract's for every index (induction over indices); root values are never computed.",
+		Explanation: "Decides the structural necessary conditions of 'synced exit-tree root equals the bridge contract's root': C01-leaf — the byte layout of bridgesync.Bridge.Hash, extracted symbolically from its SSA (fixed-width big-endian encodings, raw addresses, 32-byte big-endian amount, keccak of the metadata, in order), equals the contract's getLeafValue = keccak256(abi.encodePacked(uint8,uint32,address,uint32,address,uint256,bytes32)); C01-step — AddLeaf and initCache follow the contract's orientation (bit set ⇒ right child; lastLeftCache[h] / zeroHashes[h] with the same h; cache written on the clear edge only; all 32 levels), newTreeNode = keccak(left‖right), zero hashes z[i] = keccak(z[i-1]‖z[i-1]); C01-feed — ProcessBlock appends, for every event carrying a Bridge, the leaf {Index: DepositCount, Hash: Bridge.Hash()} of that same event at (block.Num, BlockPos) before storing its row, stores no row without a successfully appended leaf, and the downloader fills the 8 leaf-relevant Bridge fields from the same-named fields of the parsed log; C01-restart — the frontier starts at the not-initialised sentinel, is written only by AddLeaf/initCache under the rollback registration, a mismatch always rebuilds from the database (shared with C07 TX-mem). Not decided: that the frontier algorithm as a whole computes the same function as the contract's for every index (induction over indices); root values are never computed. Added after round 7: C01-schema (column affinity: integer columns INTEGER, big.Int text columns TEXT), C01-conflate (a failed log query is never answered like an empty range; shared with C05), AddLeaf writes only behind index == lastIndex+1 re-established after each rebuild and a surviving mismatch is ErrInvalidIndex, frontier writes outside the level walk are dead code.",
 		Rules: []Rule{
 			{ID: "C01-leaf", Floor: 1, Run: c01Leaf, Text: "[LAYOUT] Bridge.Hash ≡ contract getLeafValue"},
 			{ID: "C01-step", Floor: 6, Run: c01Step, Text: "[TREE]+[LAYOUT] orientation / level indexing of AddLeaf and initCache; node hash; zero hashes"},
